@@ -55,31 +55,34 @@ func (c09) Chunk(tier string) int {
 
 func (c09) Thresholds(tier string) map[string]int64 {
 	return map[string]int64{
-		"cases":                                   1500,
-		"executions-in-process":                   4500,
-		"executions-in-fresh-processes":           4500,
-		"fresh-processes-spawned":                 90,
-		"unrelated-runners-run-before":            5000,
-		"traces-with>=3-draw-sites":               500,
-		"seed:long-overflowing":                   150,
-		"seed:all-zeros":                          60,
-		"seed:single-character":                   60,
-		"range-draws:dice":                        30000,
-		"range-draws:random_range":                30000,
-		"range-draws:random":                      15000,
-		"range:dice(1)":                           1000,
-		"range:a==b":                              1000,
-		"range:negative-lower-bound":              5000,
-		"range:span>=2^31":                        1000,
-		"range-draws-with-empty-seed":             10000,
-		"draw-hit-lower-bound":                    2000,
-		"draw-hit-upper-bound":                    2000,
-		"program-with-a-non-string-jump":          50,
-		"runners-created-while-another-was-alive": 1500,
-		"extreme-search:draws-walked":             500000000,
-		"extreme-draws-driven-through-the-runner": 150,
-		"extreme-draws-reproduced-by-the-runner":  150,
-		"extreme-draws>=1-2^-25":                  15,
+		"cases":                                         1500,
+		"executions-in-process":                         4500,
+		"executions-in-fresh-processes":                 4500,
+		"fresh-processes-spawned":                       90,
+		"unrelated-runners-run-before":                  5000,
+		"traces-with>=3-draw-sites":                     500,
+		"seed:long-overflowing":                         150,
+		"seed:all-zeros":                                60,
+		"seed:single-character":                         60,
+		"range-draws:dice":                              30000,
+		"range-draws:random_range":                      30000,
+		"range-draws:random":                            15000,
+		"range:dice(1)":                                 1000,
+		"range:a==b":                                    1000,
+		"range:negative-lower-bound":                    5000,
+		"range:span>=2^31":                              1000,
+		"range-draws-with-empty-seed":                   10000,
+		"draw-hit-lower-bound":                          2000,
+		"draw-hit-upper-bound":                          2000,
+		"range:bounds-at-the-edge-of-the-integer-range": 5000,
+		"range:edge-bounds-refused":                     500,
+		"range:edge-bounds-drawn":                       500,
+		"program-with-a-non-string-jump":                50,
+		"runners-created-while-another-was-alive":       1500,
+		"extreme-search:draws-walked":                   500000000,
+		"extreme-draws-driven-through-the-runner":       150,
+		"extreme-draws-reproduced-by-the-runner":        150,
+		"extreme-draws>=1-2^-25":                        15,
 	}
 }
 
@@ -508,6 +511,52 @@ func (c09) ranges(c *core.Ctx, seed string) {
 		if bad != "" {
 			c.Violate(fmt.Sprintf("%s with bounds (%d,%d) and seed %q returned %v: %s", d.fn, d.a, d.b, seed, v, bad), map[string]any{"readers": []string{script}, "seed": seed, "draw": i})
 			return
+		}
+	}
+	// ---- bounds at the edge of the integer range (2^63 and its neighbours as doubles): a call may be
+	// refused, but a value it returns lies within the bounds as written
+	edge := []string{"9223372036854775807", "-9223372036854775808", "9223372036854775806", "4611686018427387904", "-4611686018427387904",
+		"9223372036854774784", "-9223372036854774784", "10000000000000000000", "-10000000000000000000", "0", "1", "-1"}
+	for k := 0; k < 4; k++ {
+		a, b := edge[r.Intn(len(edge))], edge[r.Intn(len(edge))]
+		call := "random_range(" + a + ", " + b + ")"
+		fa, _ := strconv.ParseFloat(a, 64)
+		fb, _ := strconv.ParseFloat(b, 64)
+		if r.Chance(1, 4) {
+			call, fa, fb = "dice("+b+")", 1, fb
+		} else if r.Chance(1, 3) {
+			call, fb = "random_range("+a+", "+a+")", fa
+		}
+		es := "title: Start\n---\n<<call cap(1, " + call + ")>>\ndone\n===\n"
+		er, err, pan := mon.Create(nil, seed, []string{es})
+		if err != nil || pan != "" {
+			c.Violate("the edge-bounds script could not be created", map[string]any{"readers": []string{es}, "error": fmt.Sprint(err), "panic": pan})
+			return
+		}
+		var val *float64
+		er.DR.AddFunction("cap", func(a []*variable.Value) (*variable.Value, error) {
+			if len(a) == 2 && a[1] != nil && a[1].Number != nil {
+				v := *a[1].Number
+				val = &v
+			}
+			return nil, nil
+		})
+		o := er.Next(0)
+		c.Feature("range:bounds-at-the-edge-of-the-integer-range")
+		switch {
+		case o.Kind == mon.KPanic:
+			c.Violate(call+" panicked", map[string]any{"readers": []string{es}, "panic": o.Panic})
+			return
+		case o.Kind == mon.KErr:
+			c.Feature("range:edge-bounds-refused")
+		case val == nil:
+			c.Violate(call+" neither failed nor returned a number: "+o.String(), map[string]any{"readers": []string{es}})
+			return
+		case *val != math.Trunc(*val) || *val < fa || *val > fb:
+			c.Violate(fmt.Sprintf("%s returned %v, outside the bounds as written", call, *val), map[string]any{"readers": []string{es}, "seed": seed})
+			return
+		default:
+			c.Feature("range:edge-bounds-drawn")
 		}
 	}
 }
